@@ -65,8 +65,19 @@ func profilesFor(id string) []*Profile {
 			case "C09":
 				withW(p, "restore", 14, "restores", 14, "remove", 8, "rmdir", 4)
 			case "C04":
-				withW(p, "add", 24, "rm", 12, "remove", 8, "rmdir", 3)
+				withW(p, "add", 24, "rm", 12, "remove", 8, "rmdir", 3, "dfswap", 3)
+			case "C02":
+				withW(p, "config", 3, "commit", 14)
 			}
+			out = append(out, p)
+		}
+		if id == "C02" {
+			// identity split over the two scopes (no identity configured up front)
+			p := baseProfile("identity")
+			p.Paths = []string{"a", "b", "d/c"}
+			p.NoInitCfg = true
+			p.CfgVals = []string{"Alice", "Bob B", "Zoë"}
+			withW(p, "config", 16, "commit", 14, "write", 12, "add", 12, "updateref", 0, "settz", 0, "reset", 2, "rm", 1, "restore", 1, "restores", 1, "branch", 1, "branchd", 0, "branchr", 1, "switch", 1, "switchc", 1)
 			out = append(out, p)
 		}
 		return out
@@ -77,6 +88,7 @@ func profilesFor(id string) []*Profile {
 		withW(p, "updateref", 8, "branch", 6, "branchr", 5, "switchc", 4, "reset", 8)
 		q := baseProfile("mixed")
 		q.Hostile = 10
+		withW(q, "dfswap", 4, "restores", 8, "restore", 6)
 		return []*Profile{p, q}
 	case "C05":
 		var out []*Profile
@@ -115,7 +127,7 @@ func profilesFor(id string) []*Profile {
 		p := baseProfile("sign")
 		p.Paths = []string{"a", "b"}
 		p.TZs = allTZs
-		p.CfgVals = []string{"Alice", "Bob B", "Zoë Ünï", "O'Neil", "a.b-c", "名前", "J. R. \"Bob\" Dobbs", "x=y", "[br]", "#hash"}
+		p.CfgVals = []string{"Alice", "Bob B", "Zoë Ünï", "O'Neil", "a.b-c", "名前", "J. R. \"Bob\" Dobbs", "x=y", "[br]", "#hash", "50% Dev", "dev> ops", "a %s b", "back\\slash"}
 		withW(p, "commit", 20, "settz", 14, "config", 8, "write", 16, "add", 16, "reset", 1, "rm", 1, "branch", 0, "branchd", 0, "branchr", 0, "switch", 0, "switchc", 0, "updateref", 0,
 			"restore", 0, "restores", 0, "remove", 0, "rmdir", 0, "touch", 0, "mkdir", 0)
 		p.Msgs = append(append([]string{}, defaultMsgs...), "multi\n\nblank\nlines: yes", strings.Repeat("long ", 500), "colon: at: start")
@@ -124,7 +136,7 @@ func profilesFor(id string) []*Profile {
 	case "C13", "C17":
 		p := baseProfile("worktree")
 		p.Paths = append(append([]string{}, famIgn...), "d/e/f/g", "d/e/h", "lib/a", "lib.go", "pkg.tar.gz", "dist/p-1.tar.gz", "x.min.js")
-		p.Ignore = [][]string{{}, {"build/"}, {"*.exe"}, {"build/", "*.exe"}, {"*.tar.gz"}, {"*.min.js", "build/"}}
+		p.Ignore = [][]string{{}, {"build/"}, {"*.exe"}, {"build/", "*.exe"}, {"*.tar.gz"}, {"*.min.js", "build/"}, {"a(b/", "*.exe"}, {"*.c++"}, {"[x]/"}}
 		withW(p, "write", 18, "rewrite", 6, "touch", 6, "remove", 8, "rmdir", 5, "ignore", 5, "add", 14, "mkdir", 2, "updateref", 0, "config", 0)
 		p.Obs = ObsSpec{Status: true, Ls: true}
 		r := baseProfile("dirs")
@@ -149,7 +161,8 @@ func profilesFor(id string) []*Profile {
 		p.Hostile = 25
 		p.Paths = append(append(append([]string{}, famOdd...), "a", "d/x", "d(1/x", "d[/y"), famExt...)
 		p.NoInitCfg = true
-		withW(p, "raw", 30, "config", 4)
+		withW(p, "raw", 30, "config", 4, "dfswap", 3, "ignore", 3)
+		p.Ignore = [][]string{{}, {"build/"}, {"a(b/"}, {"*.c++"}, {"x)y/", "*.e(x"}, {"*.exe"}}
 		p.Obs = allObs()
 		p.Obs.CatFile = false
 		p.Obs.Hash = false
@@ -163,7 +176,7 @@ func profilesFor(id string) []*Profile {
 		p := baseProfile("config")
 		p.Paths = []string{"a", "b"}
 		p.NoInitCfg = true
-		p.CfgVals = []string{"plain", "inner space", "a=b", "a = b", "[x]", "#x", "\"q\"", "'q'", "é ü", "x;y", "k = v = w", "=", "]["}
+		p.CfgVals = []string{"plain", "inner space", "a=b", "a = b", "[x]", "#x", "\"q\"", "'q'", "é ü", "x;y", "k = v = w", "=", "][", "100%", "%d %s", "a>b", "tab-free"}
 		withW(p, "config", 30, "commit", 12, "write", 12, "add", 12, "reset", 0, "rm", 1, "branch", 0, "branchd", 0, "branchr", 0, "switch", 0, "switchc", 0, "updateref", 0,
 			"restore", 0, "restores", 0, "remove", 0, "rmdir", 0, "touch", 0, "mkdir", 0, "settz", 0)
 		p.Obs = ObsSpec{}
